@@ -85,13 +85,13 @@ func (g *valGen) sysID() (s itypes.SystemID) {
 // or the raw value bytes for TLVs the decoder hands back opaquely. How the content is split over several
 // TLVs of the same type is left open.
 type group struct {
-	Typ    uint8    `json:"typ"`
-	Items  []string `json:"items,omitempty"`
-	Raw    string   `json:"raw,omitempty"`
-	NTLV   int      `json:"ntlv"`
-	Len    int      `json:"len"` // sum of declared lengths
-	kind   string
-	typed  bool // Items is meaningful (expected side: the kind has typed content; decoded side: the decoder returned a typed TLV)
+	Typ   uint8    `json:"typ"`
+	Items []string `json:"items,omitempty"`
+	Raw   string   `json:"raw,omitempty"`
+	NTLV  int      `json:"ntlv"`
+	Len   int      `json:"len"` // sum of declared lengths
+	kind  string
+	typed bool // Items is meaningful (expected side: the kind has typed content; decoded side: the decoder returned a typed TLV)
 }
 
 func lspEntryStr(e *packet.LSPEntry) string {
